@@ -222,10 +222,16 @@ func (E *explorer) dpor(cfg []int32) {
 	var stack []frame
 	choices := append([]int32(nil), cfg...)
 	var sleepInit []transID
+	var spent int64
 	for {
 		if E.timeUp() {
 			return
 		}
+		if E.opt.MaxExecPerCfg > 0 && spent >= E.opt.MaxExecPerCfg {
+			E.capped++
+			return
+		}
+		spent++
 		e := E.runOneS(choices, false, sleepInit)
 		E.account(e, choices)
 		if dumpFile != nil {
